@@ -1140,8 +1140,60 @@ fn txs_pov(world: &crate::chain::World, view: View, last_hash: Byte32, hashes: V
     }
 }
 
-pub fn lie_filters(_sim: &mut Sim, _p: usize, m: packed::BlockFilters) -> packed::BlockFilters {
-    m
+/// Interval mode (even, non-zero `lie_salt`): the deviating peer serves, for the blocks from
+/// `lie_from` up to the next check-point number, the filter of the *previous* block instead of
+/// the block's own, and filter hashes that are consistent with those tampered filters. Its
+/// check points are honest. Returns the tampered interval.
+fn lie_interval(sim: &Sim, p: usize) -> Option<(u64, u64)> {
+    let pp = &sim.plan.peers[p];
+    if pp.lie_salt == 0 || pp.lie_salt % 2 == 1 {
+        return None;
+    }
+    let i = sim.plan.knobs.check_point_interval.max(1);
+    let from = pp.lie_from.max(2);
+    let to = ((from + i - 1) / i) * i;
+    Some((from, to))
+}
+
+fn tampered_filter(sim: &Sim, branch: usize, n: u64) -> packed::Bytes {
+    sim.world.block(branch, n - 1).filter.clone()
+}
+
+/// hash of block `n`'s filter as the interval liar reports it
+fn tampered_hash(sim: &Sim, branch: usize, from: u64, n: u64) -> Byte32 {
+    let mut h = sim.world.block(branch, from - 1).filter_hash.clone();
+    for k in from..=n {
+        h = ckb_types::utilities::calc_filter_hash(&h, &tampered_filter(sim, branch, k)).pack();
+    }
+    h
+}
+
+pub fn lie_filters(sim: &mut Sim, p: usize, m: packed::BlockFilters) -> packed::BlockFilters {
+    let (from, to) = match lie_interval(sim, p) {
+        Some(x) => x,
+        None => return m,
+    };
+    let branch = sim.peers[p].view.branch;
+    let start: u64 = m.start_number().unpack();
+    let mut lied = false;
+    let filters: Vec<packed::Bytes> = m
+        .filters()
+        .into_iter()
+        .enumerate()
+        .map(|(i, f)| {
+            let n = start + i as u64;
+            if n >= from && n <= to && n <= sim.world.tip_number(branch) {
+                lied = true;
+                tampered_filter(sim, branch, n)
+            } else {
+                f
+            }
+        })
+        .collect();
+    if lied {
+        sim.stat("fault.byz.tampered_filters_consistent_with_lied_hashes");
+    }
+    m.as_builder().filters(filters.pack()).build()
 }
 
 fn lie_value(salt: u64, number: u64) -> Byte32 {
@@ -1159,6 +1211,41 @@ pub fn lie_hashes(
     p: usize,
     m: packed::BlockFilterHashes,
 ) -> (packed::BlockFilterHashes, bool) {
+    if let Some((from, to)) = lie_interval(sim, p) {
+        let branch = sim.peers[p].view.branch;
+        let start: u64 = m.start_number().unpack();
+        let tip = sim.world.tip_number(branch);
+        let mut lied = false;
+        let mut hashes: Vec<Byte32> = Vec::new();
+        for (i, h) in m.block_filter_hashes().into_iter().enumerate() {
+            let n = start + i as u64;
+            if n > to && start <= to {
+                break; // the answer ends exactly at the check-point number
+            }
+            if n >= from && n <= to && n <= tip {
+                lied = true;
+                hashes.push(tampered_hash(sim, branch, from, n));
+            } else {
+                hashes.push(h);
+            }
+        }
+        let parent = if start >= 1 && start - 1 >= from && start - 1 <= to {
+            lied = true;
+            tampered_hash(sim, branch, from, start - 1)
+        } else {
+            m.parent_block_filter_hash()
+        };
+        if lied {
+            sim.stat("fault.byz.lying_filter_hashes_interval");
+        }
+        return (
+            m.as_builder()
+                .parent_block_filter_hash(parent)
+                .block_filter_hashes(hashes.pack())
+                .build(),
+            lied,
+        );
+    }
     let pp = &sim.plan.peers[p];
     if pp.lie_salt == 0 {
         return (m, false);
@@ -1204,7 +1291,7 @@ pub fn lie_check_points(
     m: packed::BlockFilterCheckPoints,
 ) -> (packed::BlockFilterCheckPoints, bool) {
     let pp = &sim.plan.peers[p];
-    if pp.lie_salt == 0 {
+    if pp.lie_salt == 0 || pp.lie_salt % 2 == 0 {
         return (m, false);
     }
     let start: u64 = m.start_number().unpack();
